@@ -203,6 +203,23 @@ def rows_to_array(rows):
                     dtype=float).reshape(len(rows), -1)
 
 
+def ref_adaptive(D, kA, order):
+    """the adaptive-neighbourhood construction as documented ([Xu2008], processing order
+    `order`): in round i every state, in the given order, is linked (symmetrically) to its
+    nearest neighbour beyond the i-th it is not yet linked to.  Rows of D without ties."""
+    n = len(D)
+    nb = [sorted(range(n), key=lambda j: D[i][j]) for i in range(n)]
+    R = [[0] * n for _ in range(n)]
+    for i in range(kA):
+        for l in order:
+            k = i + 1
+            while k < n and R[l][nb[l][k]]:
+                k += 1
+            if k < n:
+                R[l][nb[l][k]] = R[nb[l][k]][l] = 1
+    return R
+
+
 STD_BLOCKS = ([-2, 2], [-4, 1, 1, 1, 1], [4, -1, -1, -1, -1])
 
 
@@ -603,7 +620,7 @@ def run(ctx):
             reqs.append(req)
         try:
             with np.errstate(all="ignore"):
-                obj = (RecurrenceNetwork if net else RecurrencePlot)(ts.copy(), **kw)
+                obj = (RecurrenceNetwork if net else RecurrencePlot)(caller_array(rng, ts), **kw)
         except Exception as ex:  # noqa
             if in_corr:
                 impl.append(exc_name(ex))
@@ -691,7 +708,7 @@ def run(ctx):
         ctx.count(f"{cls}:adaptive")
         try:
             obj = (RecurrenceNetwork if net else RecurrencePlot)(
-                ts.copy(), metric=metric, adaptive_neighborhood_size=kA, silence_level=3)
+                caller_array(rng, ts), metric=metric, adaptive_neighborhood_size=kA, silence_level=3)
         except Exception as ex:  # noqa
             ctx.case(("adaptive-obj", n, kA, ts.tobytes().hex(), metric), False)
             ctx.fail(dict(kind="adaptive", cls=cls, error=type(ex).__name__),
@@ -747,6 +764,11 @@ def run(ctx):
                 R2 = np.asarray(obj.recurrence_matrix())
                 got = (f"N={int(obj.N)} A={enc_bmat(obj.adjacency)}" if net else
                        f"N={int(obj.N)} M={int(obj.N)} R={enc_bmat(R2)}")
+                if len(order) == n and R2.tolist() != ref_adaptive(D, kB, order):
+                    ctx.fail(dict(kind="adaptive", cls=cls, issue="order"),
+                             f"{cls}.set_adaptive_neighborhood_size({kB}, order={order}) is not the "
+                             "documented construction for that processing order",
+                             dict(replay, setter_arg=kB, order=order, R=enc_bmat(R2)))
                 if len(order) == n and (not np.array_equal(R2, R2.T) or
                                         ((R2.sum(axis=1) - np.diag(R2)) < min(kB, n - 1)).any()):
                     ctx.fail(dict(kind="adaptive", cls=cls, issue="count-or-symmetry"),
@@ -785,7 +807,7 @@ def run(ctx):
         ctx.count(f"CrossRecurrencePlot:{kind}:{metric}" + (":emb" if emb else ""))
         sx, sy = q_states(x, emb), q_states(y, emb)
         try:
-            obj = CrossRecurrencePlot(x.copy(), y.copy(), **kw)
+            obj = CrossRecurrencePlot(caller_array(rng, x), caller_array(rng, y), **kw)
         except Exception as ex:  # noqa
             impl.append(exc_name(ex))
             ctx.case((req,), False)
@@ -864,7 +886,8 @@ def run(ctx):
         # (the guard compares with the raw length); nothing is claimed or modelled there
         in_corr = (not net) and abs(lag) <= N
         try:
-            obj = (JointRecurrenceNetwork if net else JointRecurrencePlot)(x.copy(), y.copy(), **kw)
+            obj = (JointRecurrenceNetwork if net else JointRecurrencePlot)(
+                caller_array(rng, x), caller_array(rng, y), **kw)
         except Exception as ex:  # noqa
             if in_corr:
                 reqs.append(req)
@@ -967,7 +990,7 @@ def run(ctx):
         sig = dict(cls="InterSystemRecurrenceNetwork", spec=kind,
                    embedded=bool(emb and emb[0] > 1))
         try:
-            obj = InterSystemRecurrenceNetwork(x.copy(), y.copy(), **kw)
+            obj = InterSystemRecurrenceNetwork(caller_array(rng, x), caller_array(rng, y), **kw)
         except Exception as ex:  # noqa
             impl.append(exc_name(ex))
             ctx.case((req,), False)
@@ -1525,12 +1548,24 @@ def run(ctx):
         ts = nprng.rand(n, d).astype(np.float32).astype(float)
         eps = float(nprng.rand()) * 1.2
         use_std = rng.random() < 0.4
-        ctx.count("float-stream" + (":threshold_std" if use_std else ""))
+        use_norm = rng.random() < 0.35
+        ctx.count("float-stream" + (":threshold_std" if use_std else "") + (":normalize" if use_norm else ""))
+        ts_in = ts
+        if use_norm:
+            # the statement on the normalised series, evaluated in float64
+            t64 = ts.astype(np.float64)
+            sd = t64.std(axis=0)
+            if (sd < 1e-3).any():
+                continue
+            ts = (t64 - t64.mean(axis=0)) / sd
+            eps = eps * 3
         if use_std:
-            obj = RecurrencePlot(ts.copy(), metric=metric, threshold_std=eps, silence_level=3)
+            obj = RecurrencePlot(caller_array(rng, ts_in), metric=metric, threshold_std=eps,
+                                 normalize=use_norm, silence_level=3)
             eff = eps * float(np.std(ts.astype(np.float64)))
         else:
-            obj = RecurrencePlot(ts.copy(), metric=metric, threshold=eps, silence_level=3)
+            obj = RecurrencePlot(caller_array(rng, ts_in), metric=metric, threshold=eps,
+                                 normalize=use_norm, silence_level=3)
             eff = eps
         R = np.asarray(obj.recurrence_matrix())
         st = q_states(ts, None)
@@ -1540,13 +1575,86 @@ def run(ctx):
             for j in range(n):
                 dq = q_dist(metric, st[i], st[j])
                 dv = math.sqrt(dq) if metric == "euclidean" else float(dq)
-                if abs(dv - eff) < 1e-5 * max(1.0, eff):
+                if abs(dv - eff) < (1e-4 if use_norm else 1e-5) * max(1.0, eff):
                     continue      # inside the margin: no decision demanded
                 if int(dv < eff) != int(R[i, j]):
                     bad = (i, j, dv)
         if bad:
             ctx.fail(dict(kind="matrix", cls="RecurrencePlot", spec="std" if use_std else "t",
-                          metric=metric, issue="float-entries"),
+                          metric=metric, issue="float-entries", normalize=use_norm),
                      f"R[{bad[0]},{bad[1]}] wrong for distance {bad[2]} and threshold {eff}",
-                     dict(cls="RecurrencePlot", time_series=ts.tolist(), metric=metric,
+                     dict(cls="RecurrencePlot", time_series=ts_in.tolist(), metric=metric,
+                          normalize=use_norm,
                           threshold_std=eps if use_std else None, threshold=None if use_std else eps))
+
+    # ------------------------------------------------------------------
+    # 9. implementation-only: exact power-of-two rescaling (and shifting) of the data with
+    #    the threshold rescaled accordingly must not change a single entry; rates, local
+    #    rates, neighbourhood sizes and threshold_std are scale-free
+    # ------------------------------------------------------------------
+    for c in range(50 * scale):
+        n = gen_len(rng, quick)
+        metric = rng.choice(METRICS)
+        emb = gen_emb(rng, 0.35)
+        d = 1 if emb is not None else rng.choice([1, 2, 3])
+        if emb is not None and n - (emb[0] - 1) * emb[1] < 1:
+            continue
+        ts = gen_series(rng, n, d, span=rng.choice([2, 6]))
+        k2 = rng.choice([-20, -12, -5, -1, 1, 4, 11, 20])
+        f2 = 2.0 ** k2
+        kind = rng.choice("tsrla")
+        spec = gen_spec(kind, max(n - ((emb[0] - 1) * emb[1] if emb else 0), 1))
+        shift = rng.choice([0.0, 0.0, 8.0, -64.0, 1024.0]) if kind != "s" else 0.0
+        which = rng.choice(["rp", "rp", "crp", "jrp", "isrn"]) if kind in "tr" else "rp"
+        ctx.count(f"rescale:{which}:{kind}:2^{k2}" + (":shift" if shift else ""))
+
+        def build(a, b, scale_):
+            kw = dict(metric=metric, silence_level=3)
+            if emb is not None:
+                kw.update(dim=emb[0], tau=emb[1])
+            arg = float(spec[1]) * (scale_ if kind == "t" else 1.0)
+            if kind == "a":
+                arg = int(spec[1])
+            if which == "rp":
+                kw[KW[kind]] = arg
+                return np.asarray(RecurrencePlot(caller_array(rng, a), **kw).recurrence_matrix())
+            if which == "crp":
+                kw[KW[kind]] = arg
+                return np.asarray(CrossRecurrencePlot(caller_array(rng, a), caller_array(rng, b),
+                                                      **kw).recurrence_matrix())
+            if which == "jrp":
+                kw = dict(metric=(metric, metric), silence_level=3, lag=rng_lag)
+                if emb is not None:
+                    kw.update(dim=(emb[0], emb[0]), tau=(emb[1], emb[1]))
+                kw[KW[kind]] = (arg, arg)
+                return np.asarray(JointRecurrencePlot(caller_array(rng, a), caller_array(rng, b),
+                                                      **kw).recurrence_matrix())
+            if emb is not None:
+                kw["tau"] = (emb[1], emb[1])
+            kw[KW[kind]] = (arg, arg, arg)
+            return np.asarray(InterSystemRecurrenceNetwork(caller_array(rng, a), caller_array(rng, b),
+                                                           **kw).adjacency)
+        y = gen_series(rng, n, d, span=6)
+        n_st = n - ((emb[0] - 1) * emb[1] if emb else 0)
+        rng_lag = rng.choice([0, 1, -1]) if n_st >= 3 else 0
+        if which == "isrn" and n_st < 1:
+            continue
+        try:
+            with np.errstate(all="ignore"):
+                R1 = build(ts, y, 1.0)
+                R2 = build((ts + shift) * f2, (y + shift) * f2, f2)
+        except Exception as ex:  # noqa
+            if not (which == "isrn" and n_st < 2) and not isinstance(ex, ZeroDivisionError):
+                ctx.fail(dict(kind="rescale", cls=which, spec=kind, error=type(ex).__name__),
+                         f"{which}: construction raised {type(ex).__name__}: {ex}",
+                         dict(cls=which, series=ts.tolist(), y=y.tolist(), factor=f2, shift=shift))
+            continue
+        ctx.case(("rescale", which, kind, metric, emb, ts.tobytes().hex(), k2, shift, str(spec)),
+                 nontrivial(R1))
+        if R1.shape != R2.shape or not np.array_equal(R1, R2):
+            ctx.fail(dict(kind="rescale", cls=which, spec=kind, metric=metric),
+                     f"{which}({KW[kind]}): rescaling the data by 2^{k2} (shift {shift}) with the "
+                     "threshold rescaled accordingly changes the recurrence matrix",
+                     dict(cls=which, series=ts.tolist(), y=y.tolist(), factor=f2, shift=shift,
+                          kwargs=dict(metric=metric, emb=emb, spec=[kind, float(spec[1])]),
+                          R1=enc_bmat(R1), R2=enc_bmat(R2)))
